@@ -1,7 +1,7 @@
 (* C03 - basis functions and knot-span search satisfy their defining identities.
    This file only states the property theorems; proofs live under Proofs/ and Transfer/. *)
-From Coq Require Import List QArith Reals Qreals Lia Arith Bool.
-From NV Require Import Scalar.Ops Model.Common Model.Basis Model.Knots Proofs.Boehm Proofs.BasisR Proofs.KnotsR Proofs.EvalR Proofs.BinSearchR Proofs.DersSum5 Proofs.DersSum6 Proofs.GenerateR Proofs.BasisPos Proofs.BasisOneR Proofs.DerivAnalytic Proofs.DerivLink Transfer.BasisT.
+From Coq Require Import List QArith Reals Qreals Lia Lra Arith Bool.
+From NV Require Import Scalar.Ops Model.Common Model.Basis Model.Knots Proofs.Boehm Proofs.BasisR Proofs.KnotsR Proofs.EvalR Proofs.BinSearchR Proofs.DersSum5 Proofs.DersSum6 Proofs.GenerateR Proofs.BasisPos Proofs.BasisOneR Proofs.DerivAnalytic Proofs.DerivLink Proofs.DersEq210 Proofs.DersNdu Proofs.DersGeneral Transfer.BasisT.
 Import ListNotations.
 
 (* [G] all degrees, all sorted knot vectors with any multiplicities, all parameters in a non-empty span *)
@@ -163,6 +163,44 @@ Theorem C03_ders_agrees_with_ders_one_deg_le_5 : forall (U : list R) (p span : n
   nth k (basis_function_ders_one Rops p U (span - p + r) u p) 0%R.
 Proof. exact ders_agrees_with_ders_one_deg_le_5. Qed.
 Print Assumptions C03_ders_agrees_with_ders_one_deg_le_5.
+
+(* [G] all degrees, every real u: replaces C03_ders_rows_sum_to_zero_deg_le_6 (degree 7 of the property's range included) *)
+Theorem C03_ders_rows_sum_to_zero : forall (U : list R) (span p : nat),
+  sortedR U -> (p <= span)%nat -> (span + p < length U)%nat -> (span + 1 < length U)%nat ->
+  forall (u : R) (order k : nat), (order <= p)%nat -> (1 <= k <= order)%nat ->
+  sumT Rops (nth k (basis_function_ders Rops p U span u order) []) = 0%R.
+Proof. exact ders_rows_sum_to_zero_general. Qed.
+Print Assumptions C03_ders_rows_sum_to_zero.
+
+(* [G] the ndu table of A2.3: basis functions of all lower degrees + knot differences *)
+Theorem C03_ndu_table_spec : forall (U : list R) (span : nat) (u : R) (p : nat),
+  sortedR U -> (knR U span <= u < knR U (span + 1))%R -> (p <= span)%nat -> (span + p < length U)%nat ->
+  (span + 1 < length U)%nat ->
+  (forall r j, (r <= j)%nat -> (j <= p)%nat ->
+     get2 Rops (ndu_table Rops p U span u) r j = N (Ufun U) j (span - j + r) u) /\
+  (forall r j, (r < j)%nat -> (j <= p)%nat ->
+     get2 Rops (ndu_table Rops p U span u) j r = (Ufun U (span + r + 1) - Ufun U (span + 1 - (j - r)))%R).
+Proof. exact ndu_table_spec. Qed.
+Print Assumptions C03_ndu_table_spec.
+
+(* [G] Eq. 2.10 of The NURBS Book (acoef = a_{k,j}, ff p k = p!/(p-k)!) *)
+Theorem C03_eq_2_10 : forall U : nat -> R, (forall i, (U i <= U (S i))%R) ->
+  forall (s k p i : nat) (u : R), (U s <= u < U (S s))%R ->
+  DerivAnalytic.dN U k p i u = (ff p k * sumf (fun j => acoef U p i k j * N U (p - k) (i + j) u) (S k))%R.
+Proof. exact eq_2_10. Qed.
+Print Assumptions C03_eq_2_10.
+
+(* non-vacuity: degree 7, clamped vector with a double interior knot, requested order 5 *)
+Example C03_ders_rows_sum_to_zero_deg7_satisfiable :
+  let U := [0; 0; 0; 0; 0; 0; 0; 0; 1; 1; 2; 3; 3; 3; 3; 3; 3; 3; 3]%R in
+  forall u : R, sumT Rops (nth 3 (basis_function_ders Rops 7 U 9 u 5) []) = 0%R.
+Proof.
+  intros U u. subst U. apply ders_rows_sum_to_zero_general; try (cbn [length]; lia).
+  intros i j H. cbn [length] in H.
+  do 19 (destruct i as [|i]; [do 19 (destruct j as [|j]; [first [exfalso; lia | cbn [kn nth]; rsimp; lra]|]); exfalso; lia|]).
+  exfalso; lia.
+Qed.
+
 
 (* non-vacuity: a concrete cubic knot vector with a double interior knot meets the hypotheses *)
 Example C03_hypotheses_satisfiable :
